@@ -592,6 +592,22 @@ def do_compute(m: Machine, step):
         tr.quaternion_inverse(quat[i])
         tr.quaternion_slerp(quat[i], quat[j], 0.3)
         T.calc_angular_speed(poses[i], poses[j], 0.0, 1.0)
+        T.calc_speed(pos[i], pos[j], 0.0, 1.0)
+        tr.unit_vector(pos[i])
+        tr.vector_norm(pos, axis=1)
+        tr.is_same_transform(poses[i], poses[j])
+        tr.translation_from_matrix(poses[i])
+        tr.decompose_matrix(poses[j])
+        tr.inverse_matrix(poses[i])
+        tr.concatenate_matrices(poses[i], poses[j])
+        try:
+            tr.rotation_from_matrix(poses[i])
+        except ValueError:
+            pass  # "no unit eigenvector" for an identity rotation
+        if b is not None and b.model.n == a.model.n and a.model.n >= 3:
+            tr.affine_matrix_from_points(pos.T, b.obj.positions_xyz.T,
+                                         shear=False, scale=False)
+            tr.superimposition_matrix(pos.T, b.obj.positions_xyz.T)
         if a.stamped and a.model.n >= 2 and a.model.stamps_strictly_increasing():
             evo.pandas_bridge.trajectories_stats_to_df({"a": a.obj})
         m.probe_hit("compute_helpers")
@@ -1155,6 +1171,8 @@ def gen_step(m: Machine, rng, uid):
         st["ref_name"] = rng.choice(["reference", "gt/ref.txt", "/gt"])
     elif what in ("lie", "helpers"):
         st["i"], st["j"] = rng.randrange(64), rng.randrange(64)
+        if same:
+            st["b"] = rng.choice(same).uid
     elif what == "filter_pairs":
         st["delta_i"] = rng.choice([1, 2, 3])
         st["dist"] = rng.choice([0.5, 2.0]) * scale
